@@ -172,22 +172,23 @@ Proof. exact demo_manual_non_boundary. Qed.
 
 (* ---------- concurrent schedule / auto calls ---------- *)
 (* No lock spans a call: every read (plan, in-flight scan, re-plan, replay snapshot, base look-up) and every append
-   is a separate atomic step (`astep`); `sys_steps` is any interleaving of any number of calls.  From a valid stream
+   is a separate atomic step (`astep`); `sys_steps` is any interleaving of any number of calls and of clients
+   appending messages meanwhile (`aspec`).  From a valid stream
    whose job frames are well bracketed, every interleaving ends in a valid stream (seqs strictly increase) in which
    every job id has exactly one job_spawned frame, at most one job_ended frame, and the job_ended comes after
    its job_spawned (bracket_ok). *)
-Theorem c09_concurrent_valid_and_job_bracket : forall (K : consts) (s : st) (calls : list call) (s' : st) (acts' : list astate),
+Theorem c09_concurrent_valid_and_job_bracket : forall (K : consts) (s : st) (calls : list aspec) (s' : st) (acts' : list astate),
   valid (log s) -> bracket_ok (log s) ->
-  sys_steps K (s, map AStart calls) (s', acts') ->
+  sys_steps K (s, map start_of calls) (s', acts') ->
   valid (log s') /\ bracket_ok (log s').
 Proof. exact concurrent_bracket. Qed.
 Print Assumptions c09_concurrent_valid_and_job_bracket.
 
 (* the executable scheduler the correspondence drives (quantum = pending append + the reads that follow it) *)
-Theorem c09_run_sched_bracket : forall (K : consts) (s : st) (calls : list call) (schedule : list N),
+Theorem c09_run_sched_bracket : forall (K : consts) (s : st) (calls : list aspec) (schedule : list N),
   valid (log s) -> bracket_ok (log s) ->
-  valid (log (fst (run_sched K s (map AStart calls) schedule)))
-  /\ bracket_ok (log (fst (run_sched K s (map AStart calls) schedule))).
+  valid (log (fst (run_sched K s (map start_of calls) schedule)))
+  /\ bracket_ok (log (fst (run_sched K s (map start_of calls) schedule))).
 Proof. exact run_sched_bracket. Qed.
 Print Assumptions c09_run_sched_bracket.
 
